@@ -31,7 +31,7 @@ def rows_not_app(snap, app):
 class C06(DiffCheck):
     id = "C06"
     profile = "twoapps"
-    profiles = ["twoapps", "twoapps", "mixed"]
+    profiles = ["twoapps", "twoapps", "mixed", "shared"]
     rule = ("A history H over two or three apps using identical nameplates, side strings and message contents is generated "
             "online (profiles twoapps/mixed; sweeps and restarts included). For every app B in it, H|B = H with all ops of "
             "connections bound to other apps removed (advance/restart kept, references renumbered) is executed on a fresh "
@@ -40,7 +40,7 @@ class C06(DiffCheck):
             "command on a connection bound to A leaves everything stored for apps != A byte-identical. Non-trivial = B's "
             "projection has >=1 nameplate and >=1 message while the removed part used the same nameplate name or side string; "
             "distinct by hash of (config, script). Known finding R3 (same mailbox id in two apps) is excluded by construction: "
-            "literal mailbox ids are made app-specific (counted as r3_excluded_literal_mailbox_ops).")
+            "literal mailbox ids are made app-specific (counted as r3_excluded_literal_mailbox_ops); in the additional profile 'shared' the same literal id IS used in two apps, exactly the recorded failure (IntegrityError from _add_mailbox) ends such a history without verdict (known_R3_hit), anything else - e.g. another app's messages appearing - is judged.")
     level_text = ("Metamorphic exploration on the real service: every generated multi-app history is re-run once per app with the "
                   "other apps' commands removed and the app's observations and stored rows are compared; plus a stepwise frame "
                   "condition on foreign rows.")
@@ -49,7 +49,7 @@ class C06(DiffCheck):
                   "(needs a schema migration), its trigger is excluded by construction and its replay is run on every check.")
     technique = "Hypothesis-generated multi-app histories + metamorphic oracle (history vs. history with other apps removed) + stepwise frame condition, script-level ddmin"
     assumptions = ["allocation outcome is a generated input (random shim) and depends only on the app's own names"]
-    quick = dict(examples=800, max_ops=40, workers=8)
+    quick = dict(examples=1400, max_ops=40, workers=8)
     thorough = dict(examples=40000, max_ops=100, workers=16)
 
     def judge(self, cfg, script, classes):
@@ -63,7 +63,7 @@ class C06(DiffCheck):
             1 for op in script if op.get("op") == "send" and isinstance(op["msg"].get("mailbox"), str))
         if len(apps) < 2:
             return False
-        full = run_script(wcfg, script, uid="full")
+        full = run_script(wcfg, script, uid="full", known=True)
         # frame condition in the full run
         for i, (op, o) in enumerate(zip(script, full)):
             if op.get("op") == "send" and op["c"] in capps and i > 0:
@@ -81,7 +81,7 @@ class C06(DiffCheck):
             sub, order = _subscript(script, keep)
             if len(order) == len(script):
                 continue
-            part = run_script(wcfg, sub, uid="part")
+            part = run_script(wcfg, sub, uid="part", known=True)
             cf, cp = Canon(lits), Canon(lits)
             bconns = set(c for c, a in capps.items() if a == B)
             # frames: feed op by op so that canonical names follow B's own stream
